@@ -1207,6 +1207,11 @@ RLE_STRIDE = 48      # one large case after this many small ones: spreads them o
 
 def gen(tier, rng):
     import random, os
+    if os.environ.get('VERIF_C08_ONLY', '') == 'repr':     # development switch: the representation-vs-value part alone
+        cnt = itertools.count(1)
+        for c in _gen_repr(tier, random.Random(rng.getrandbits(64)), lambda: next(cnt)):
+            yield c
+        return
     if os.environ.get('VERIF_C08_LARGE', '1') == '0':      # development switch (timing of the small-scope part alone)
         for c in _gen_small(tier, rng):
             yield c
@@ -1491,7 +1496,7 @@ def _gen_repr(tier, rng, tick):
     for tab in tables(REPR_MULTI_SETS, _two_alpha, {1: 5, 2: 4, 3: 4 if big else 3}):
         cols = [_col(k, r) for k, r in tab]
         yield {'op': 'multir', 'cols': cols}
-        if tick() % 2 == 0 or big:
+        if tick() % 2 == 0:
             yield {'op': 'sortedr', 'cols': cols}
     for tab in tables([s_ for s_ in REPR_MULTI_SETS if len(s_) <= 2], _three_alpha, {1: 4, 2: 4 if big else 3}):
         cols = [_col(k, r) for k, r in tab]
@@ -1504,7 +1509,7 @@ def _gen_repr(tier, rng, tick):
                 for cols in itertools.product(*[list(itertools.product(alpha('fixed', w), repeat=n)) for w in ws]):
                     cs = [_col('fixed', list(r), w=w) for w, r in zip(ws, cols)]
                     yield {'op': 'multir', 'cols': cs}
-                    if tick() % 2 == 0 or big:
+                    if tick() % 2 == 0:
                         yield {'op': 'sortedr', 'cols': cs}
     # ---- R4. DataFrame.groupby(by=[...]).count() (HDF5-backed; ~15 ms a case): key columns of one dtype are stacked as
     #          they are, of different dtypes are ranked first
@@ -1523,7 +1528,7 @@ def _gen_repr(tier, rng, tick):
             for k in ('f64b', 'f32b'):
                 for rows in itertools.product(_fb_small(FBITS[k]), repeat=n):
                     t = tick()
-                    fsel = fns if big else [fns[t % 6], fns[(t + 3) % 6]]
+                    fsel = [fns[t % 6], fns[(t + 3) % 6]] + ([fns[(t + 1) % 6]] if big else [])
                     for fn in fsel:
                         level = ['kernel', 'session', 'field'][(t + len(fn)) % 3]
                         if level == 'field' and fn.startswith('index_of'):
